@@ -675,8 +675,10 @@ impl Inner {
         }
 
         // The GOAWAY process has begun. All streams with a greater ID than
-        // specified as part of GOAWAY should be ignored.
-        if id > self.actions.recv.max_stream_id() {
+        // specified as part of GOAWAY should be ignored. That only concerns
+        // streams the peer initiates: the last-stream-id says nothing about
+        // our own (pushed) streams, which the peer may still reset.
+        if !self.counts.peer().is_local_init(id) && id > self.actions.recv.max_stream_id() {
             tracing::trace!(
                 "id ({:?}) > max_stream_id ({:?}), ignoring RST_STREAM",
                 id,
